@@ -145,10 +145,12 @@ fn boxed_zero_numeral(c: &mut Ctx) {
                 return;
             }
             let r = call(|| BoxedUint::from_str_radix_vartime(text, radix));
-            if !no_panic!(c, r; text, radix) {
-                continue;
-            }
-            let Ok(Ok(z)) = r else { continue };
+            let z = match &r {
+                Ok(Ok(z)) => Some(z.clone()),
+                _ => None,
+            };
+            no_panic!(c, r; text, radix);
+            let Some(z) = z else { continue };
             no_panic!(c, call(|| cb(z.is_zero())); text, radix);
             no_panic!(c, call(|| z.bits()); text, radix);
             no_panic!(c, call(|| z.bits_vartime()); text, radix);
